@@ -1234,14 +1234,32 @@ class Path:
         return self.alloc(DObj(d))
 
     def ev_JoinedStr(self, n):
-        # f-strings only feed log lines / exception messages
+        # f-strings mostly feed log lines / exception messages: opaque.  A plain `{expr}` part whose expression is a
+        # chain of names / attributes / argument-less method calls (f'on_{pdu.name.lower()}': dynamic dispatch by
+        # name) is evaluated; the string is concrete iff every part is a concrete str
         parts = []
         for v in n.values:
             if isinstance(v, ast.Constant):
                 parts.append(v.value)
+            elif isinstance(v, ast.FormattedValue) and v.conversion == -1 and v.format_spec is None and self._simple_chain(v.value):
+                x = self.eval(v.value)
+                if not isinstance(x, str):
+                    return OpaqueStr()
+                parts.append(x)
             else:
                 return OpaqueStr()
         return ''.join(parts)
+
+    def _simple_chain(self, e):
+        while True:
+            if isinstance(e, ast.Name):
+                return True
+            if isinstance(e, ast.Attribute):
+                e = e.value
+            elif isinstance(e, ast.Call) and not e.args and not e.keywords and isinstance(e.func, ast.Attribute):
+                e = e.func.value
+            else:
+                return False
 
     def ev_Attribute(self, n):
         return self.getattr(self.eval(n.value), n.attr)
